@@ -96,7 +96,8 @@ static _Bool inv_B(const bucket_t* B, int maxchain) {
  * Kept cheap: address classification by comparison with concrete addresses, sticky flags, no list walks. */
 _Bool mon_on; bstate_t mon_prev_state; uint32_t mon_version0; _Bool chain0[POOL];
 _Bool mon_bad_slot_store, mon_bad_state_step, mon_bad_item_store, mon_bad_order, mon_lock_dropped;
-_Bool mon_next_store_v0[POOL];       /* item p had its `next` written while the bucket version was still the initial one */
+_Bool mon_next_store_v0[POOL];
+_Bool mon_unlinked_v0[POOL];         /* item p (linked at the start) was found unlinked while the bucket version was still the initial one */       /* item p had its `next` written while the bucket version was still the initial one */
 unsigned mon_state_stores, mon_unlocks, mon_slot_stores, mon_head_stores; int mon_last_state_order;
 bucket_t g_other0; bucket_t* g_other;
 #define VERSION_MASK ((uint32_t)((((uint64_t)1) << (32 - version_shift)) - 1))
@@ -110,6 +111,10 @@ static void mon_state_step(bstate_t old, bstate_t new, int o) {
   if (dv > 2 || ic1 > NSLOT) mon_bad_state_step = 1;
   /* publishing stores (anything but setting a marker or a pure unlock) are release */
   if ((dv != 0 || ic1 != ic0) && !XV_IS_RELEASE(o)) mon_bad_order = 1;
+}
+static void mon_unlink_check(bucket_t* B) {       /* after a store to head / next */
+  if (BS_version(B->state) != mon_version0) return;
+  for (int p = 0; p < POOL; ++p) if (chain0[p] && !in_chain(B, POOL_ITEM_C(p))) mon_unlinked_v0[p] = 1;
 }
 static void mon_store(void* addr, uint64_t v, int o) {
   if (!mon_on) return;
@@ -135,16 +140,43 @@ static void mon_store(void* addr, uint64_t v, int o) {
     mon_head_stores++; if (!BS_is_locked(B->state)) mon_bad_slot_store = 1;
     int p = pool_index(B->head); _Bool was_linked = 0; for (int q = 0; q < POOL; ++q) if (q == p && chain0[q]) was_linked = 1;
     if (B->head != 0 && !was_linked && !XV_IS_RELEASE(o)) mon_bad_order = 1;
+    mon_unlink_check(B);
     return; }
   for (int p = 0; p < POOL; ++p) if (chain0[p]) {
     extension_item* x = POOL_ITEM_C(p);
     /* an item that was linked when the operation started is not written before the version has moved on; the only exception is the
        `next` store that unlinks its successor - and that one must not hit the item being removed itself (checked at the end) */
     if (addr == (void*)&x->key || addr == (void*)&x->value) { if (BS_version(B->state) == mon_version0) mon_bad_item_store = 1; return; }
-    if (addr == (void*)&x->next) { if (BS_version(B->state) == mon_version0) mon_next_store_v0[p] = 1; return; }
+    if (addr == (void*)&x->next) { if (BS_version(B->state) == mon_version0) mon_next_store_v0[p] = 1; mon_unlink_check(B); return; }
   }
 }
-static void mon_load(void* addr, uint64_t v, int o) { }
+/* reader monitor (try_get_value): which cells were loaded when, in the current iteration of the retry loop */
+_Bool rd_on, rd_have_state1; bstate_t rd_state1, rd_state_last; uint64_t rd_state1_clock, rd_state_last_clock; int rd_state1_order;
+int rd_key_item, rd_val_item;        /* item the last key / value cell load belongs to: 0..NSLOT-1 array slot, NSLOT+p pool item p, -1 none */
+uint64_t rd_key_clock, rd_val_clock, rd_key_val, rd_val, rd_ptr_clock, rd_ptr_val; int rd_val_order, rd_ptr_order; unsigned rd_slots_seen; _Bool rd_ptr_seen;
+static void rd_reset(void) {
+  rd_have_state1 = 0; rd_key_item = rd_val_item = -1; rd_slots_seen = 0; rd_ptr_seen = 0;
+  rd_key_clock = rd_val_clock = rd_ptr_clock = rd_state1_clock = rd_state_last_clock = 0;
+}
+static void mon_load(void* addr, uint64_t v, int o) {
+  if (!rd_on) return;
+  bucket_t* B = g_B;
+  if (addr == (void*)&B->state) {
+    if (!rd_have_state1) { rd_have_state1 = 1; rd_state1 = (bstate_t)v; rd_state1_clock = xv_clock; rd_state1_order = o; }
+    rd_state_last = (bstate_t)v; rd_state_last_clock = xv_clock; return;
+  }
+  for (int i = 0; i < NSLOT; ++i) {
+    if (addr == (void*)&B->key[i]) { rd_key_item = i; rd_key_clock = xv_clock; rd_key_val = v; rd_slots_seen |= 1u << i; return; }
+    if (addr == (void*)&B->value[i]) { rd_val_item = i; rd_val_clock = xv_clock; rd_val = v; rd_val_order = o; return; }
+  }
+  if (addr == (void*)&B->head) { rd_ptr_clock = xv_clock; rd_ptr_val = v; rd_ptr_order = o; rd_ptr_seen = 1; return; }
+  for (int p = 0; p < POOL; ++p) {
+    extension_item* x = POOL_ITEM_C(p);
+    if (addr == (void*)&x->key) { rd_key_item = NSLOT + p; rd_key_clock = xv_clock; rd_key_val = v; return; }
+    if (addr == (void*)&x->value) { rd_val_item = NSLOT + p; rd_val_clock = xv_clock; rd_val = v; rd_val_order = o; return; }
+    if (addr == (void*)&x->next) { rd_ptr_clock = xv_clock; rd_ptr_val = v; rd_ptr_order = o; rd_ptr_seen = 1; return; }
+  }
+}
 static void mon_cas(void* addr, uint64_t e, uint64_t d, _Bool ok, int o) {
   if (!mon_on) return;
   if (addr == (void*)&g_B->state && ok) { mon_prev_state = (bstate_t)d; }    /* the monitor runs before the cell is written */
